@@ -343,6 +343,9 @@ pub struct ExecLog {
     pub hash_hashes: u64,
     pub seam_active: bool,
     pub threads_used: usize,
+    /// (request index, printed output) of every distinct input that expanded (only when asked)
+    #[serde(default)]
+    pub texts: Vec<(usize, String)>,
 }
 
 pub struct ExecOptions {
@@ -355,6 +358,8 @@ pub struct ExecOptions {
     pub exit_on_hang: bool,
     /// append the index of every step to this file before it starts (crash attribution)
     pub progress: Option<std::path::PathBuf>,
+    /// keep the printed output of every distinct input in the log (for the rustc-parser engine)
+    pub keep_text: bool,
 }
 impl Default for ExecOptions {
     fn default() -> Self {
@@ -364,6 +369,7 @@ impl Default for ExecOptions {
             max_violations: 200,
             exit_on_hang: false,
             progress: None,
+            keep_text: false,
         }
     }
 }
@@ -598,6 +604,13 @@ fn controller(plan: &Plan, opts: &ExecOptions, main: Worker) -> (ExecLog, bool) 
                         },
                     });
                 }
+            }
+        }
+    }
+    if opts.keep_text {
+        for (ri, (ii, text)) in &model {
+            if log.inputs[*ii].outcome == Outcome::Ok {
+                log.texts.push((*ri, text.clone()));
             }
         }
     }
